@@ -98,11 +98,12 @@ pub trait ExtractAttribute {
 
         quote!(
             #declarations
-            use ::darling::ToTokens;
 
             for __attr in #attrs_accessor {
                 // Filter attributes based on name
-                match ::darling::export::ToString::to_string(&__attr.path().clone().into_token_stream()).as_str() {
+                // Compare with the same rendering `attributes(..)` / `forward_attrs(..)` names use, so
+                // that multi-segment paths such as `a::b` match.
+                match ::darling::util::path_to_string(__attr.path()).as_str() {
                     #parse_handled
                     #forward_unhandled
                 }
